@@ -8,8 +8,8 @@ package v2alpha2
 // resource.Quantity.DeepCopy), hence `trusted`: the result is a new object whose scalar fields equal
 // the receiver's and whose maps / pointer fields are new objects with equal contents.
 
-//@ define sameStrMap(a map[string]string, b map[string]string) bool = ((a == nil) == (b == nil)) && (forall k string :: ((k in a) == (k in b)) && a[k] == b[k])
-//@ define sameResList(a v1.ResourceList, b v1.ResourceList) bool = ((a == nil) == (b == nil)) && (forall k v1.ResourceName :: ((k in a) == (k in b)) && a[k] == b[k])
+//@ define sameStrMap(a map[string]string, b map[string]string) bool = ((a == nil) == (b == nil)) && dom(a) == dom(b) && (forall k string :: a[k] == b[k])
+//@ define sameResList(a v1.ResourceList, b v1.ResourceList) bool = ((a == nil) == (b == nil)) && dom(a) == dom(b) && (forall k v1.ResourceName :: a[k] == b[k])
 
 //@ func (*PodGroup).DeepCopy
 //@   props C18
